@@ -44,6 +44,18 @@ Theorem C34_separator : SLASH = 47 /\ DOT = 46.
 Proof. split; reflexivity. Qed.
 Print Assumptions C34_separator.
 
+(* the REALPATH request path: a session served with the default canonicalisation answers with the canonical
+   path -- absolute, ordinary names only, inside the root -- whatever any session handled before *)
+Theorem C34_realpath_default :
+  forall (history : list (list Z * list Z)) (root p : list Z),
+  let r := realpath_reply canonicalize history p in
+  r = canonicalize p /\
+  (exists t, r = SLASH :: t) /\
+  forallb clean (comps r) = true /\
+  resolve (root ++ r) = resolve root ++ comps r.
+Proof. exact realpath_default. Qed.
+Print Assumptions C34_realpath_default.
+
 (* exactly two leading slashes are kept by normpath, three or more collapse to one *)
 Theorem C34_double_slash_kept :
   canonicalize [SLASH; SLASH; 120] = [SLASH; SLASH; 120] /\
